@@ -1,0 +1,270 @@
+#!/usr/bin/env python
+# -*- coding: utf-8 -*-
+"""
+Verification hooks for the timeline of a Part.
+
+This module does nothing unless the environment variable PARTITURA_VERIF is
+set to "1" when partitura is imported.  When enabled, the public timeline
+operations of `Part` (and the registration methods of `TimePoint`) are wrapped
+so that one event per outermost call is recorded *after* the state change
+(also when the call raises).  Events go to the file named by the environment
+variable PARTITURA_VERIF_TRACE (one JSON object per line), or to the list
+`EVENTS` after `start_recording()` has been called.  Only cheap scalar state is
+logged: the operation and its arguments, the number of time points before and
+after, and for every touched time the local neighbourhood of that time point.
+"""
+import functools
+import json
+import os
+import weakref
+
+ENABLED = os.environ.get("PARTITURA_VERIF") == "1"
+
+EVENTS = []
+_S = {"depth": 0, "seq": 0, "fh": None, "rec": False, "next_serial": 1}
+_PART_SERIAL = weakref.WeakKeyDictionary()
+_POINT_OWNER = weakref.WeakKeyDictionary()
+
+
+def start_recording():
+    del EVENTS[:]
+    _S["rec"] = True
+
+
+def stop_recording():
+    _S["rec"] = False
+    return list(EVENTS)
+
+
+def _active():
+    return _S["rec"] or bool(os.environ.get("PARTITURA_VERIF_TRACE"))
+
+
+def _emit(rec):
+    _S["seq"] += 1
+    rec["seq"] = _S["seq"]
+    if _S["rec"]:
+        EVENTS.append(rec)
+    path = os.environ.get("PARTITURA_VERIF_TRACE")
+    if path:
+        if _S["fh"] is None or _S["fh"].name != path:
+            _S["fh"] = open(path, "a")
+        _S["fh"].write(json.dumps(rec) + "\n")
+        _S["fh"].flush()
+
+
+def _serial(part):
+    s = _PART_SERIAL.get(part)
+    if s is None:
+        s = _S["next_serial"]
+        _S["next_serial"] += 1
+        _PART_SERIAL[part] = s
+    return s
+
+
+def _t(tp):
+    return -1 if tp is None else tp.t
+
+
+def _local(part, t):
+    """Neighbourhood of time t on the timeline of part (after the operation)."""
+    pts = part._points
+    lo, hi = 0, len(pts)
+    while lo < hi:  # first index with pts[i].t >= t
+        mid = (lo + hi) // 2
+        if pts[mid].t < t:
+            lo = mid + 1
+        else:
+            hi = mid
+    i = lo
+    exists = i < len(pts) and pts[i].t == t
+    left = pts[i - 1] if i > 0 else None
+    right_i = i + 1 if exists else i
+    right = pts[right_i] if right_i < len(pts) else None
+    rec = {
+        "t": t,
+        "exists": 1 if exists else 0,
+        "lt": _t(left),
+        "rt": _t(right),
+        "lt_next": _t(left.next) if left is not None else -2,
+        "rt_prev": _t(right.prev) if right is not None else -2,
+    }
+    if exists:
+        tp = pts[i]
+        rec["prev"] = _t(tp.prev)
+        rec["next"] = _t(tp.next)
+        rec["q"] = tp.quarter if isinstance(tp.quarter, int) else -1
+        rec["nreg"] = sum(len(oo) for oo in tp.starting_objects.values()) + sum(
+            len(oo) for oo in tp.ending_objects.values()
+        )
+    return rec
+
+
+def _wrap_part_method(cls, name, describe):
+    orig = getattr(cls, name)
+
+    @functools.wraps(orig)
+    def wrapper(self, *args, **kwargs):
+        if not _active():
+            return orig(self, *args, **kwargs)
+        outer = _S["depth"] == 0
+        _S["depth"] += 1
+        err = None
+        pre = None
+        if outer:
+            try:
+                pre = describe(self, args, kwargs, None)
+                pre["pre_np"] = len(self._points)
+            except Exception:
+                pre = None
+        try:
+            return orig(self, *args, **kwargs)
+        except BaseException as e:
+            err = type(e).__name__
+            raise
+        finally:
+            _S["depth"] -= 1
+            if outer and pre is not None:
+                try:
+                    rec = describe(self, args, kwargs, pre)
+                    rec["part"] = _serial(self)
+                    rec["np"] = len(self._points)
+                    rec["err"] = err or ""
+                    _emit(rec)
+                except Exception as e:  # never disturb the library
+                    _emit({"op": "hook_error", "part": _serial(self), "what": repr(e)})
+
+    setattr(cls, name, wrapper)
+
+
+def _describe_add(part, args, kwargs, pre):
+    if pre is None:
+        start = kwargs.get("start", args[1] if len(args) > 1 else None)
+        end = kwargs.get("end", args[2] if len(args) > 2 else None)
+        o = args[0] if args else kwargs.get("o")
+        return {
+            "op": "add",
+            "cls": type(o).__name__,
+            "s": -1 if start is None else int(start),
+            "e": -1 if end is None else int(end),
+            "had_s": 0 if getattr(o, "start", None) is None else 1,
+            "had_e": 0 if getattr(o, "end", None) is None else 1,
+        }
+    rec = dict(pre)
+    rec["local"] = [_local(part, t) for t in sorted(set([rec["s"], rec["e"]]) - set([-1]))]
+    return rec
+
+
+def _describe_remove(part, args, kwargs, pre):
+    if pre is None:
+        o = args[0] if args else kwargs.get("o")
+        which = kwargs.get("which", args[1] if len(args) > 1 else "both")
+        s = getattr(o, "start", None)
+        e = getattr(o, "end", None)
+        return {
+            "op": "remove",
+            "cls": type(o).__name__,
+            "w": str(which),
+            "s": _t(s) if which in ("start", "both") else -1,
+            "e": _t(e) if which in ("end", "both") else -1,
+        }
+    rec = dict(pre)
+    rec["local"] = [_local(part, t) for t in sorted(set([rec["s"], rec["e"]]) - set([-1]))]
+    return rec
+
+
+def _describe_setq(part, args, kwargs, pre):
+    if pre is None:
+        t = kwargs.get("t", args[0] if args else None)
+        q = kwargs.get("quarter", args[1] if len(args) > 1 else None)
+        return {"op": "setq", "t": int(t), "q": int(q)}
+    rec = dict(pre)
+    rec["qtab"] = [[int(a), int(b)] for a, b in zip(part._quarter_times, part._quarter_durations)]
+    # quarter carried by the points from t up to the entry after the next one (cheap, local)
+    pts = [p for p in part._points if p.t >= rec["t"]][:4]
+    rec["pq"] = [[p.t, p.quarter if isinstance(p.quarter, int) else -1] for p in pts]
+    return rec
+
+
+def _describe_point(part, args, kwargs, pre):
+    if pre is None:
+        t = kwargs.get("t", args[0] if args else None)
+        return {"op": "point", "t": int(t)}
+    rec = dict(pre)
+    rec["local"] = [_local(part, rec["t"])]
+    return rec
+
+
+def _wrap_timepoint_method(cls, name, delta):
+    orig = getattr(cls, name)
+
+    @functools.wraps(orig)
+    def wrapper(self, obj):
+        if not _active() or _S["depth"] > 0:
+            return orig(self, obj)
+        # a direct call that bypasses Part.add / Part.remove
+        before = sum(len(oo) for oo in self.starting_objects.values()) + sum(
+            len(oo) for oo in self.ending_objects.values()
+        )
+        try:
+            return orig(self, obj)
+        finally:
+            after = sum(len(oo) for oo in self.starting_objects.values()) + sum(
+                len(oo) for oo in self.ending_objects.values()
+            )
+            owner = _POINT_OWNER.get(self)
+            part = owner() if owner is not None else None
+            if part is not None:
+                _emit(
+                    {
+                        "op": "tp",
+                        "kind": name,
+                        "part": _serial(part),
+                        "t": self.t,
+                        "cls": type(obj).__name__,
+                        "delta": after - before,
+                        "nreg": after,
+                    }
+                )
+
+    setattr(cls, name, wrapper)
+
+
+def install(namespace):
+    """Wrap the timeline operations of Part and TimePoint (called from score.py when enabled)."""
+    if not ENABLED:
+        return
+    Part = namespace["Part"]
+    TimePoint = namespace["TimePoint"]
+
+    orig_init = Part.__init__
+
+    @functools.wraps(orig_init)
+    def init(self, *args, **kwargs):
+        orig_init(self, *args, **kwargs)
+        if _active():
+            _emit({"op": "new", "part": _serial(self), "q0": int(self._quarter_durations[0]), "np": 0})
+
+    Part.__init__ = init
+
+    orig_add_point = Part._add_point
+
+    @functools.wraps(orig_add_point)
+    def add_point(self, tp):
+        orig_add_point(self, tp)
+        if _active():
+            try:
+                _POINT_OWNER[tp] = weakref.ref(self)
+            except TypeError:
+                pass
+
+    Part._add_point = add_point
+
+    _wrap_part_method(Part, "add", _describe_add)
+    _wrap_part_method(Part, "remove", _describe_remove)
+    _wrap_part_method(Part, "set_quarter_duration", _describe_setq)
+    _wrap_part_method(Part, "get_or_add_point", _describe_point)
+    _wrap_timepoint_method(TimePoint, "add_starting_object", +1)
+    _wrap_timepoint_method(TimePoint, "add_ending_object", +1)
+    _wrap_timepoint_method(TimePoint, "remove_starting_object", -1)
+    _wrap_timepoint_method(TimePoint, "remove_ending_object", -1)
